@@ -180,16 +180,24 @@ async fn slow(i: usize) -> String {
     format!("done {i}")
 }
 
+/// a session that ends by unwinding: the handler panics inside its async body (outside catch_unwind)
+async fn crash(i: usize) -> String {
+    ev("started", i as i64);
+    ev("ended", i as i64);
+    panic!("handler {i} panics (scripted)")
+}
+
 fn e2e(scn: &Value) -> Value {
     use ohkami::prelude::*;
     use tokio::io::{AsyncReadExt, AsyncWriteExt};
     v::install_sched(sched_free);
     for _ in 0..8 { RELEASE.lock().unwrap().push(Arc::new(tokio::sync::Notify::new())) }
     let steps: Vec<String> = crate::util::arr(&scn["steps"]).iter().map(|s| crate::util::s(&s[0]).to_string()).collect();
+    let crashes: Vec<i64> = crate::util::arr(&scn["crash"]).iter().map(crate::util::i).collect();
     let rt = tokio::runtime::Builder::new_multi_thread().worker_threads(2).enable_all().build().unwrap();
     let out = rt.block_on(async move {
         let port = { let l = std::net::TcpListener::bind("127.0.0.1:0").unwrap(); l.local_addr().unwrap().port() };
-        let o = Ohkami::new(("/s/:i".GET(slow),));
+        let o = Ohkami::new(("/s/:i".GET(slow), "/x/:i".GET(crash)));
         let script = tokio::spawn(async move {
             // wait until it listens
             let mut up = false;
@@ -205,10 +213,11 @@ fn e2e(scn: &Value) -> Value {
                     "C" => {
                         let i = next; next += 1;
                         ev("arrive", i as i64);
+                        let crashing = crashes.contains(&(i as i64));
                         let h = tokio::spawn(async move {
                             let mut buf = vec![];
                             if let Ok(mut c) = tokio::net::TcpStream::connect(("127.0.0.1", port)).await {
-                                let _ = c.write_all(format!("GET /s/{i} HTTP/1.1\r\nConnection: close\r\n\r\n").as_bytes()).await;
+                                let _ = c.write_all(format!("GET /{}/{i} HTTP/1.1\r\nConnection: close\r\n\r\n", if crashing { "x" } else { "s" }).as_bytes()).await;
                                 let _ = c.read_to_end(&mut buf).await;
                             }
                             buf
@@ -217,7 +226,7 @@ fn e2e(scn: &Value) -> Value {
                         let lim = if signalled { 60 } else { 1000 };
                         let mut started = false;
                         for _ in 0..lim { if EVENTS.lock().unwrap().iter().any(|(k, j)| k == "started" && *j == i as i64) { started = true; break } tokio::time::sleep(Duration::from_millis(5)).await }
-                        if started { inflight.push_back(i) } else { unserved += 1; ev("unserved", i as i64) }
+                        if started && !crashing { inflight.push_back(i) } else if !started { unserved += 1; ev("unserved", i as i64) }
                         clients.push(h);
                     }
                     "S" => {
